@@ -31,6 +31,20 @@ Inductive c08case :=
         (obs : c08obs)
         (instances : list json).
 
+(* ---------- abbreviations used by the harness printer (smaller case terms) *)
+(* "#/components/schemas/" ++ s *)
+Definition RF (s : str) : str :=
+  [35;47;99;111;109;112;111;110;101;110;116;115;47;115;99;104;101;109;97;115;47] ++ s.
+(* SchemaData::default() *)
+Definition D0 : sdata := sdata_default.
+(* a schema object with only a single type and validation keywords *)
+Definition SOT (t : itype) : option numval -> option strval -> option (arrval schema) ->
+                             option (objval schema) -> option str -> list (str * json) -> sobj schema :=
+  mkSObj None (Some (Single t)) None None None None.
+(* an untyped schema object with only subschemas / a reference / extensions *)
+Definition SOU (sb : option (subsval schema)) (r : option str) (ext : list (str * json)) : sobj schema :=
+  mkSObj None None None None None sb None None None None r ext.
+
 (* ---------- concrete [pattern] / [format] interpretations for evaluation.
    The theorems hold for every interpretation; these two make a dropped
    pattern or format visible on the generated instances: a pattern is a
@@ -49,9 +63,15 @@ Fixpoint substr_b (p s : str) : bool :=
 Definition pat_c (p s : str) : bool := substr_b p s.
 Definition fmt_c (f : str) (j : json) : bool := negb (json_eqb j (JStr (33 :: f))).
 
-Definition FUEL : nat := 12.
-Definition envJ (defs : list (str * schema)) := env_js pat_c fmt_c FUEL defs.
-Definition envO (comps : list (str * oschema)) := env_oas pat_c fmt_c FUEL comps.
+(* fuel for following references: 12 for ordinary cases (a self-referential
+   anyOf costs 2^fuel); documents with many definitions (the large-scope slice:
+   reference chains, deterministic, no branching loops) get twice their number
+   of definitions more.  Both sides of a comparison always use the same fuel. *)
+Definition FUEL (defs : list (str * schema)) : nat :=
+  if Nat.leb (length defs) 4 then 12 else 2 * length defs + 12.
+Definition envJ (defs : list (str * schema)) := env_js pat_c fmt_c (FUEL defs) defs.
+Definition envO (defs : list (str * schema)) (comps : list (str * oschema)) :=
+  env_oas pat_c fmt_c (FUEL defs) comps.
 
 (* ---------- structural equality of published schemas ---------- *)
 Definition bool_eqb (a b : bool) : bool := Bool.eqb a b.
@@ -223,7 +243,7 @@ Definition judge (c : c08case) : N :=
           (* a parameter value is never JSON null (absence is the parameter's
              [required: false]): null is not an instance at a parameter site *)
           let sem_ok :=
-            forallb (fun j => (param && is_null j) || bool_eqb (valid_oas (envO comps) pat_c fmt_c o j)
+            forallb (fun j => (param && is_null j) || bool_eqb (valid_oas (envO defs comps) pat_c fmt_c o j)
                                        (valid_js (envJ defs) pat_c fmt_c src j)) instances in
           let ann_ok := annots_eqb (annots_js name (if param then strip_description src else src))
                                   (annots_oas o) && defs_annots_ok defs comps in
@@ -250,12 +270,12 @@ Definition fmt_true (f : str) (j : json) : bool := true.
 Definition xvec (c : c08case) : list N :=
   match c with
   | CConv _ _ _ src defs obs instances =>
-      let ej := env_js pat_c fmt_true FUEL defs in
+      let ej := env_js pat_c fmt_true (FUEL defs) defs in
       map (fun j =>
              (if valid_js ej pat_c fmt_true src j then 2 else 0)
              + match obs with
                | ObsOk o comps =>
-                   if valid_oas (env_oas pat_c fmt_true FUEL comps) pat_c fmt_true o j then 1 else 0
+                   if valid_oas (env_oas pat_c fmt_true (FUEL defs) comps) pat_c fmt_true o j then 1 else 0
                | _ => 0
                end) instances
   end.
